@@ -97,7 +97,8 @@ def char_function(ctx, dim, blend, case):
     out = ctx.array("out0", shape)
     i0, i1 = (0,) * (dim - 1) + (0,), (0,) * (dim - 1) + (1,)
     w = blend
-    tol = 1e-12
+    # the kernel bakes pi/blend_width and 1/pi as constants of the working precision
+    tol = 1e-12 if ctx.real_t == np.float64 else 1e-5
     if case == "below":
         p = ctx.scalar("phi", default=-2 * w)
         ctx.assume(p < -w)
